@@ -370,10 +370,10 @@ theorem member_step (m : Member) (ms : List Member) (fs : FS) (t t2 : XTree)
         simp only [xMkdirs, hfr, Option.some.injEq] at hins
         subst hins
         obtain ⟨fs', hadd, hT, hR⟩ := add_member_fresh 4094 (fs := fs) (t := t) (t1 := tA)
-          (ino := { kind := .dir, name := joinSlash (init ++ [c]), link := m.link, children := some [], data := some [] })
+          (ino := { kind := .dir, name := joinSlash (init ++ [c]), link := m.link, children := some [], data := some [], md := m.imd })
           [] true h hrep hg hu hfresh (Or.inl ⟨rfl, rfl⟩) (by simp) (by simp) hA
         refine ⟨fs', ?_, hT, hR⟩
-        have hprep : prepMember fs m = some { kind := .dir, name := joinSlash (init ++ [c]), link := m.link, children := some [], data := some [] } := by
+        have hprep : prepMember fs m = some { kind := .dir, name := joinSlash (init ++ [c]), link := m.link, children := some [], data := some [], md := m.imd } := by
           simp [prepMember, hk, hnn, hfresh]
         rw [addMembers, hprep]
         simp only
@@ -392,7 +392,7 @@ theorem member_step (m : Member) (ms : List Member) (fs : FS) (t t2 : XTree)
         simp only [hA] at hins
         have hfr : alGet tA (joinSlash (init ++ [c])) = alGet t (joinSlash (init ++ [c])) :=
           xMkdirs_frame _ _ _ hA _ (not_mem_prefixes hg)
-        have hprep : prepMember fs m = some { kind := .reg, name := joinSlash (init ++ [c]), link := m.link, children := none, data := some m.data } := by
+        have hprep : prepMember fs m = some { kind := .reg, name := joinSlash (init ++ [c]), link := m.link, children := none, data := some m.data, md := m.imd } := by
           simp [prepMember, hk, hnn]
         cases hget : alGet t (joinSlash (init ++ [c])) with
         | none =>
@@ -402,7 +402,7 @@ theorem member_step (m : Member) (ms : List Member) (fs : FS) (t t2 : XTree)
           rw [hget] at hnode
           have hfresh := node?_none hnode
           obtain ⟨fs', hadd, hT, hR⟩ := add_member_fresh 4094 (fs := fs) (t := t) (t1 := tA)
-            (ino := { kind := .reg, name := joinSlash (init ++ [c]), link := m.link, children := none, data := some m.data })
+            (ino := { kind := .reg, name := joinSlash (init ++ [c]), link := m.link, children := none, data := some m.data, md := m.imd })
             [] true h hrep hg hu hfresh (Or.inr ⟨by simp, rfl, fun _ => ⟨m.data, rfl⟩⟩) (by simp) (by simp) hA
           refine ⟨fs', ?_, hT, hR⟩
           rw [addMembers, hprep]
@@ -425,7 +425,7 @@ theorem member_step (m : Member) (ms : List Member) (fs : FS) (t t2 : XTree)
             rw [hAt] at hA
             cases hA
             obtain ⟨fs', hadd, hT, hR⟩ := add_member_replace 4095 (fs := fs) (t := t)
-              (ino := { kind := .reg, name := joinSlash (init ++ [c]), link := m.link, children := none, data := some m.data })
+              (ino := { kind := .reg, name := joinSlash (init ++ [c]), link := m.link, children := none, data := some m.data, md := m.imd })
               [] true h hrep hg hu hi hik ⟨rfl, rfl, m.data, rfl⟩
             refine ⟨fs', ?_, hT, hR⟩
             rw [addMembers, hprep]
@@ -454,10 +454,10 @@ theorem member_step (m : Member) (ms : List Member) (fs : FS) (t t2 : XTree)
           · exact contained_normPath _
           · exact contained_normPath _
         obtain ⟨fs', hadd, hT, hR⟩ := add_member_fresh 4094 (fs := fs) (t := t) (t1 := tA)
-          (ino := { kind := .sym, name := joinSlash (init ++ [c]), link := normLink .sym (joinSlash (init ++ [c])) m.link, children := none, data := some [] })
+          (ino := { kind := .sym, name := joinSlash (init ++ [c]), link := normLink .sym (joinSlash (init ++ [c])) m.link, children := none, data := some [], md := m.imd })
           [] true h hrep hg hu hfresh (Or.inr ⟨by simp, rfl, by simp⟩) (fun _ => hlc) (by simp) hA
         refine ⟨fs', ?_, hT, hR⟩
-        have hprep : prepMember fs m = some { kind := .sym, name := joinSlash (init ++ [c]), link := normLink .sym (joinSlash (init ++ [c])) m.link, children := none, data := some [] } := by
+        have hprep : prepMember fs m = some { kind := .sym, name := joinSlash (init ++ [c]), link := normLink .sym (joinSlash (init ++ [c])) m.link, children := none, data := some [], md := m.imd } := by
           simp [prepMember, hk, hnn]
         rw [addMembers, hprep]
         simp only
@@ -502,10 +502,10 @@ theorem member_step (m : Member) (ms : List Member) (fs : FS) (t t2 : XTree)
               obtain ⟨i, hi⟩ := node?_some this
               simp [hi]
             obtain ⟨fs', hadd, hT, hR⟩ := add_member_fresh 4094 (fs := fs) (t := t) (t1 := tA)
-              (ino := { kind := .link, name := joinSlash (init ++ [c]), link := normLink .link (joinSlash (init ++ [c])) m.link, children := none, data := some [] })
+              (ino := { kind := .link, name := joinSlash (init ++ [c]), link := normLink .link (joinSlash (init ++ [c])) m.link, children := none, data := some [], md := m.imd })
               [] true h hrep hg hu hfresh (Or.inr ⟨by simp, rfl, by simp⟩) (fun _ => hlc) (fun _ => hkey) hA
             refine ⟨fs', ?_, hT, hR⟩
-            have hprep : prepMember fs m = some { kind := .link, name := joinSlash (init ++ [c]), link := normLink .link (joinSlash (init ++ [c])) m.link, children := none, data := some [] } := by
+            have hprep : prepMember fs m = some { kind := .link, name := joinSlash (init ++ [c]), link := normLink .link (joinSlash (init ++ [c])) m.link, children := none, data := some [], md := m.imd } := by
               simp [prepMember, hk, hnn]
             rw [addMembers, hprep]
             simp only
@@ -533,10 +533,10 @@ theorem member_step (m : Member) (ms : List Member) (fs : FS) (t t2 : XTree)
         simp only [hA, Option.map, Option.some.injEq] at hins
         subst hins
         obtain ⟨fs', hadd, hT, hR⟩ := add_member_fresh 4094 (fs := fs) (t := t) (t1 := tA)
-          (ino := { kind := .special, name := joinSlash (init ++ [c]), link := m.link, children := none, data := some [] })
+          (ino := { kind := .special, name := joinSlash (init ++ [c]), link := m.link, children := none, data := some [], md := m.imd })
           [] true h hrep hg hu hfresh (Or.inr ⟨by simp, rfl, by simp⟩) (by simp) (by simp) hA
         refine ⟨fs', ?_, hT, hR⟩
-        have hprep : prepMember fs m = some { kind := .special, name := joinSlash (init ++ [c]), link := m.link, children := none, data := some [] } := by
+        have hprep : prepMember fs m = some { kind := .special, name := joinSlash (init ++ [c]), link := m.link, children := none, data := some [], md := m.imd } := by
           simp [prepMember, hk, hnn]
         rw [addMembers, hprep]
         simp only
@@ -633,19 +633,21 @@ theorem TreeOK.open {fs : FS} (h : TreeOK [] fs) {p : Bytes} (hp : validPath p =
     openFS fs p = match fs.get? p with
       | none => .err .notexist
       | some i =>
-        match (fs.ino i).kind, (fs.ino i).data with
-        | .dir, _ => .dir (fs.info i) (fs.entries i)
-        | .reg, some d => .file (fs.info i) d
-        | .reg, none => .err .other
-        | .special, _ => .err .exist
-        | .sym, _ => openAux fs fs.inodes.length (fs.ino i).link
-        | .link, _ =>
+        match (fs.ino i).kind with
+        | .dir => .dir (fs.info i) (fs.entries i)
+        | .reg =>
+          match readSeg (fs.ino i) with
+          | .ok d => .file (fs.info i) d
+          | .error e => .err e
+        | .special => .err .exist
+        | .sym => openAux fs fs.inodes.length (fs.ino i).link
+        | .link =>
           match linkChain fs fs.inodes.length (getInode fs (fs.ino i).link) with
           | .error e => .err e
           | .ok t =>
-            match (fs.ino t).data with
-            | some d => .file (fs.info i) d
-            | none => .err .other := by
+            match readSeg (fs.ino t) with
+            | .ok d => .file (fs.info i) d
+            | .error e => .err e := by
   unfold openFS
   rw [openAux, h.getInode_eq' hp hns]
   cases hg : fs.get? p with
@@ -653,12 +655,21 @@ theorem TreeOK.open {fs : FS} (h : TreeOK [] fs) {p : Bytes} (hp : validPath p =
   | some i =>
     simp only
     cases hkk : (fs.ino i).kind <;> simp [hkk]
-    · cases (fs.ino i).data <;> rfl
+    · cases readSeg (fs.ino i) <;> rfl
     · cases linkChain fs fs.inodes.length (getInode fs (fs.ino i).link) with
       | error e => rfl
       | ok t =>
         simp only
-        cases (fs.ino t).data <;> rfl
+        cases readSeg (fs.ino t) <;> rfl
+
+/-- A member that fits its segment reads what the segment holds. -/
+theorem readSeg_fits {n : Inode} {d : Bytes} (hd : n.data = some d) (hs : n.md.hsize ≤ n.md.seg) :
+    readSeg n = .ok d := by
+  simp [readSeg, hd, Nat.not_lt.2 hs]
+
+/-- `checkSize`: a member whose header size exceeds its segment is refused. -/
+theorem readSeg_oversize {n : Inode} (hs : n.md.seg < n.md.hsize) : readSeg n = .error .invalid := by
+  simp [readSeg, hs]
 
 /-- A path that is not a valid io/fs path is refused. -/
 theorem getInode_invalid (fs : FS) {p : Bytes} (hp : validPath p = false) : getInode fs p = .error .invalid := by
@@ -759,19 +770,38 @@ theorem globFS_sorted (fs : FS) (pat : Bytes) :
   exact List.pairwise_mergeSort (le := bytesLe) bytesLe_trans bytesLe_total _
 
 
-/-- A hard link to a regular file reads the bytes that file holds. -/
+/-- A hard link to a regular file reads the bytes that file holds (if the file
+    fits its segment; `checkSize` refuses it otherwise). -/
 theorem TreeOK.open_hardlink {fs : FS} (h : TreeOK [] fs) {p : Bytes} {i j : Nat} {d : Bytes}
     (hp : validPath p = true) (hns : NoLinkOnPath fs p)
     (hi : fs.get? p = some i) (hk : (fs.ino i).kind = .link)
     (hns' : NoLinkOnPath fs (fs.ino i).link)
-    (hj : fs.get? (fs.ino i).link = some j) (hjk : (fs.ino j).kind = .reg) (hd : (fs.ino j).data = some d) :
+    (hj : fs.get? (fs.ino i).link = some j) (hjk : (fs.ino j).kind = .reg) (hd : (fs.ino j).data = some d)
+    (hfit : (fs.ino j).md.hsize ≤ (fs.ino j).md.seg) :
     openFS fs p = .file (fs.info i) d := by
   rw [h.open hp hns]
   simp only [hi, hk]
   have htc : Contained (fs.ino i).link := (h.inv.ino i).2 (Or.inr hk)
   rw [h.getInode_eq' htc hns', hj]
   cases hl : fs.inodes.length with
-  | zero => simp [linkChain, hjk, hd]
-  | succ n => simp [linkChain, hjk, hd]
+  | zero => simp [linkChain, hjk, readSeg_fits hd hfit]
+  | succ n => simp [linkChain, hjk, readSeg_fits hd hfit]
+
+/-- A hard link to a regular file that does not fit its segment is refused
+    like the file itself. -/
+theorem TreeOK.open_hardlink_oversize {fs : FS} (h : TreeOK [] fs) {p : Bytes} {i j : Nat}
+    (hp : validPath p = true) (hns : NoLinkOnPath fs p)
+    (hi : fs.get? p = some i) (hk : (fs.ino i).kind = .link)
+    (hns' : NoLinkOnPath fs (fs.ino i).link)
+    (hj : fs.get? (fs.ino i).link = some j) (hjk : (fs.ino j).kind = .reg)
+    (hbig : (fs.ino j).md.seg < (fs.ino j).md.hsize) :
+    openFS fs p = .err .invalid := by
+  rw [h.open hp hns]
+  simp only [hi, hk]
+  have htc : Contained (fs.ino i).link := (h.inv.ino i).2 (Or.inr hk)
+  rw [h.getInode_eq' htc hns', hj]
+  cases hl : fs.inodes.length with
+  | zero => simp [linkChain, hjk, readSeg_oversize hbig]
+  | succ n => simp [linkChain, hjk, readSeg_oversize hbig]
 
 end ClairModel.TarFS
